@@ -12,7 +12,9 @@ def obj(uuid, label, cam, tl=True):
     from perception_eval.common.label import Label, TrafficLightLabel, AutowareLabel
     from perception_eval.common.object2d import DynamicObject2D
     from perception_eval.common.schema import FrameID
-    lab = Label(TrafficLightLabel(label), label) if tl else Label(AutowareLabel({"green": "car", "red": "pedestrian", "yellow": "bicycle"}[label]), label)
+    # "fp": the false-positive label of either family (a ground truth may carry it; an estimate reported with the same label agrees with it)
+    lab = (Label(TrafficLightLabel({"fp": "false_positive"}.get(label, label)), label) if tl else
+           Label(AutowareLabel({"green": "car", "red": "pedestrian", "yellow": "bicycle", "fp": "false_positive"}[label]), label))
     return DynamicObject2D(0, FrameID.from_value(cam), 0.9, lab, roi=None, uuid=uuid)
 
 
@@ -120,7 +122,36 @@ def search(item, seed):
                                     why = check(case)
                                     if why:
                                         return dict(function="pairing", input=case, observed=why)
-    return search_shared_ids(seed or 0)
+    return search_all_correct() or search_shared_ids(seed or 0)
+
+
+def check_all_correct(case):
+    """every ground truth (a false-positive-labelled one included) paired with an equally-labelled estimate and nothing else reported: all four scores are 1"""
+    from perception_eval.common.evaluation_task import EvaluationTask
+    from perception_eval.evaluation.result.object_result import get_object_results
+    from perception_eval.evaluation.metrics.classification.accuracy import ClassificationAccuracy
+    objs = lambda: [obj(u, l, c, tl=case["tl"]) for (u, l, c) in case["objects"]]
+    est, gt = objs(), objs()
+    res = get_object_results(EvaluationTask.CLASSIFICATION2D, est, gt, uuid_matching_first=case["uuid_first"])
+    acc = ClassificationAccuracy(res, len(gt), [])
+    got = (acc.num_tp, acc.num_fp, acc.accuracy, acc.precision, acc.recall, acc.f1score)
+    if got != (len(gt), 0, 1.0, 1.0, 1.0, 1.0):
+        return f"every ground truth is paired with an equally-labelled estimate, yet (TP, FP, accuracy, precision, recall, F1) = {got}"
+    return None
+
+
+def search_all_correct():
+    for tl in (True, False):
+        for uf in (False, True):
+            for labels in itertools.product(LABELS + ["fp"], repeat=2):
+                for cams in itertools.product(CAMS, repeat=2):
+                    if labels[0] == labels[1] and cams[0] == cams[1] and tl:
+                        continue      # two equally-labelled traffic lights in one camera may be paired crosswise by the label stage: still all correct, but keep the case simple
+                    case = dict(tl=tl, uuid_first=uf, objects=[(str(i), labels[i], cams[i]) for i in range(2)])
+                    why = check_all_correct(case)
+                    if why:
+                        return dict(function="all-correct", input=case, observed=why)
+    return None
 
 
 def search_shared_ids(seed):
@@ -142,6 +173,10 @@ def search_shared_ids(seed):
 
 def replay(payload):
     i = payload["input"]
+    if payload.get("function") == "all-correct":
+        i["objects"] = [tuple(x) for x in i["objects"]]
+        why = check_all_correct(i)
+        return (why is None, why or "ok")
     i["est"] = [tuple(x) for x in i["est"]]
     i["gt"] = [tuple(x) for x in i["gt"]]
     why = check(i)
